@@ -47,12 +47,14 @@ def gen_limits(rng, kind):
             lim[k] = [ud(rng, -40, 20), ud(rng, 30, 150)]
         else:
             lim[k] = [a if rng.random() < 0.5 else 0.0, b]
+            if rng.random() < 0.15:
+                lim[k] = [-lim[k][0], -lim[k][1]]      # limits are compared by magnitude: negative entries are legal
     return lim
 
 
 def gen_system(rng, *, max_nodes=24, p_table=0.25, p_mux=0.3, n_sources=None, polarity=True,
                p_rt=0.0, p_limits=0.0, p_group=0.0, p_rail=0.0, phases=0.0, p_neg_args=0.15,
-               heavy=False, p_neg_src_rs=0.0, p_detour=0.25):
+               heavy=False, p_neg_src_rs=0.0, p_detour=0.25, p_bridge=0.15):
     """Returns a description dict.  `heavy` sizes series resistances / loads towards overload."""
     ns = n_sources if n_sources is not None else rng.choice([1, 1, 1, 2, 2, 3])
     n_total = rng.randint(ns + 1, max(ns + 1, int(rng.choice([4, 8, 12, max_nodes]))))
@@ -229,7 +231,18 @@ def gen_system(rng, *, max_nodes=24, p_table=0.25, p_mux=0.3, n_sources=None, po
         add_phases(rng, desc)
     if rng.random() < p_detour:
         add_detour(rng, desc)
+    if rng.random() < p_bridge:
+        add_bridge(rng, desc)
     return desc
+
+
+def add_bridge(rng, desc):
+    """choose one parent link to be built through a temporary pass-through stage; see sysdesc.build"""
+    cands = [c for c in desc["comps"] if c["kind"] != "source" and c["parents"]]
+    if not cands:
+        return
+    c = rng.choice(cands)
+    desc.setdefault("_build", {})["bridge"] = {"child": c["name"], "slot": rng.randrange(len(c["parents"]))}
 
 
 def add_detour(rng, desc):
